@@ -107,9 +107,10 @@ func sameRecs(a, b [][]byte) bool {
 }
 
 // Oracle: C08 evaluated on the implementation alone.
-//   meta "frag":   newline-terminated stream, reads only, no overflow possible: the emitted records must equal those of
-//                  the same stream delivered in one read (implementation against itself)
-//   meta "single": stream of single-line valid records with flushes anywhere: emitted valid records == the lines
+//
+//	meta "frag":   newline-terminated stream, reads only, no overflow possible: the emitted records must equal those of
+//	               the same stream delivered in one read (implementation against itself)
+//	meta "single": stream of single-line valid records with flushes anywhere: emitted valid records == the lines
 func (f *frameComp) Oracle(c Case, impl []string) string {
 	for _, l := range impl {
 		if strings.HasPrefix(l, "panic") || l == "stuck" {
